@@ -40,13 +40,14 @@ type Case struct {
 	NProxies   int    `json:"nproxies"`
 	Sends      []Send `json:"sends"`
 	CutAt      int    `json:"cut_at"` // >= 0: the current work connection is killed before send #CutAt (udp, tcpMux off)
+	DownAt     int    `json:"backend_down_at"` // >= 0: backend 0 is away while send #DownAt goes out (its socket is closed, then re-opened on the same port 400 ms later)
 	CutPauseMs int    `json:"cut_pause_ms"` // the script pauses this long after the cut (longer than the re-establishment window: everything after must arrive)
 }
 
 func gen(t *rapid.T) Case {
 	c := Case{Kind: rapid.SampledFrom([]string{"udp", "udp", "sudp"}).Draw(t, "kind"), Enc: rapid.Bool().Draw(t, "enc"), Comp: rapid.Bool().Draw(t, "comp"),
 		TCPMux: rapid.Bool().Draw(t, "tcpmux"), PacketSize: rapid.SampledFrom([]int{1500, 1500, 576, 4000}).Draw(t, "pktsize"),
-		NUsers: rapid.IntRange(1, 6).Draw(t, "nusers"), NProxies: rapid.IntRange(1, 2).Draw(t, "nproxies"), CutAt: -1}
+		NUsers: rapid.IntRange(1, 6).Draw(t, "nusers"), NProxies: rapid.IntRange(1, 2).Draw(t, "nproxies"), CutAt: -1, DownAt: -1}
 	if rapid.IntRange(0, 5).Draw(t, "limited") == 0 {
 		c.Limit = rapid.SampledFrom([]string{"client", "server"}).Draw(t, "limit")
 	}
@@ -73,9 +74,12 @@ func gen(t *rapid.T) Case {
 		}
 		c.Sends = append(c.Sends, s)
 	}
-	if c.Kind == "udp" && !c.TCPMux && n >= 4 && rapid.IntRange(0, 3).Draw(t, "fault") == 0 {
+	if !c.TCPMux && n >= 4 && rapid.IntRange(0, 3).Draw(t, "fault") == 0 {
+		// udp: the server's work connection is cut; sudp: the owner's work connections are cut, which makes the visitor reconnect
 		c.CutAt = rapid.IntRange(1, n-1).Draw(t, "cutat")
 		c.CutPauseMs = rapid.SampledFrom([]int{0, 1800}).Draw(t, "cutpause")
+	} else if n >= 6 && rapid.IntRange(0, 4).Draw(t, "downfault") == 0 {
+		c.DownAt = rapid.IntRange(1, n-3).Draw(t, "downat")
 	}
 	return c
 }
@@ -133,6 +137,18 @@ func (s *sink) snapshot() []got {
 	return append([]got(nil), s.list...)
 }
 
+func serveBackend(pi int, bc *net.UDPConn, log *sink) {
+	buf := make([]byte, 65536)
+	for {
+		n, from, e := bc.ReadFromUDP(buf)
+		if e != nil {
+			return
+		}
+		log.add(buf[:n], from.String())
+		_, _ = bc.WriteToUDP(transform(buf[:n], pi), from)
+	}
+}
+
 func limitLightLoad(c Case) bool {
 	for _, s := range c.Sends {
 		if s.GapUs < 1000 {
@@ -143,7 +159,7 @@ func limitLightLoad(c Case) bool {
 }
 
 func brief(c Case) string {
-	return fmt.Sprintf("[kind=%s enc=%v comp=%v tcpMux=%v limit=%q packetSize=%d users=%d proxies=%d sends=%d cutAt=%d cutPause=%dms]", c.Kind, c.Enc, c.Comp, c.TCPMux, c.Limit, c.PacketSize, c.NUsers, c.NProxies, len(c.Sends), c.CutAt, c.CutPauseMs)
+	return fmt.Sprintf("[kind=%s enc=%v comp=%v tcpMux=%v limit=%q packetSize=%d users=%d proxies=%d sends=%d cutAt=%d cutPause=%dms backendDownAt=%d]", c.Kind, c.Enc, c.Comp, c.TCPMux, c.Limit, c.PacketSize, c.NUsers, c.NProxies, len(c.Sends), c.CutAt, c.CutPauseMs, c.DownAt)
 }
 
 func run(c Case) error {
@@ -163,19 +179,13 @@ func run(c Case) error {
 		}
 		_ = bc.SetReadBuffer(8 << 20)
 		backends[pi], blog[pi] = bc, &sink{}
-		defer bc.Close()
-		go func(pi int, bc *net.UDPConn) {
-			buf := make([]byte, 65536)
-			for {
-				n, from, e := bc.ReadFromUDP(buf)
-				if e != nil {
-					return
-				}
-				blog[pi].add(buf[:n], from.String())
-				_, _ = bc.WriteToUDP(transform(buf[:n], pi), from)
-			}
-		}(pi, bc)
+		go serveBackend(pi, bc, blog[pi])
 	}
+	defer func() {
+		for _, b := range backends {
+			b.Close()
+		}
+	}()
 
 	// ---- frpc (owner), through a relay when the script kills the work connection
 	common := fx.BaseClientConfig(s)
@@ -302,7 +312,29 @@ func run(c Case) error {
 	// ---- the script
 	sentAt := make([]time.Time, len(c.Sends))
 	var cutTime time.Time
+	var downFrom, downTo time.Time
 	for i, sd := range c.Sends {
+		if i == c.DownAt {
+			// backend 0 goes away, one datagram is sent into the void (the client's per-user socket learns "connection
+			// refused"), the backend comes back on the same port
+			port := backends[0].LocalAddr().(*net.UDPAddr).Port
+			downFrom = time.Now()
+			backends[0].Close()
+			time.Sleep(20 * time.Millisecond)
+			sentAt[i] = time.Now()
+			_, _ = users[sd.User].WriteToUDP(payload(i, sd), public[sd.Proxy])
+			time.Sleep(400 * time.Millisecond)
+			nb, e := net.ListenUDP("udp", &net.UDPAddr{IP: net.ParseIP("127.0.0.1"), Port: port})
+			if e != nil {
+				return fx.Inconclusive("backend could not come back on its port: %v", e)
+			}
+			_ = nb.SetReadBuffer(8 << 20)
+			backends[0] = nb
+			go serveBackend(0, nb, blog[0])
+			downTo = time.Now()
+			time.Sleep(450 * time.Millisecond) // everything sent from here on is outside the fault window and must arrive
+			continue
+		}
 		if i == c.CutAt {
 			if relay.CutAfterFirst() == 0 {
 				return fx.Inconclusive("no work connection to cut")
@@ -319,7 +351,7 @@ func run(c Case) error {
 	}
 
 	// ---- wait: until everything expected has arrived (light load, no fault) or a quiet period
-	light := limitLightLoad(c) && c.CutAt < 0
+	light := limitLightLoad(c) && c.CutAt < 0 && c.DownAt < 0
 	total := func() int {
 		n := 0
 		for _, l := range blog {
@@ -388,8 +420,14 @@ func run(c Case) error {
 	srcOf := map[string]map[string]bool{} // "proxy/user" -> source addresses seen by the backend
 	for pi, l := range blog {
 		gotProxy[pi] = map[string]int{}
+		probeSeen := map[string]int{}
 		for _, g := range l.snapshot() {
 			if isProbe(g.b) {
+				// every readiness probe was sent once (its last byte counts up): it is a datagram like any other
+				probeSeen[string(g.b)]++
+				if probeSeen[string(g.b)] > 1 {
+					return fmt.Errorf("backend %d received the datagram %x, which was sent once (before the script, to see the tunnel come up), %d times %s", pi, g.b, probeSeen[string(g.b)], brief(c))
+				}
 				continue
 			}
 			gotProxy[pi][string(g.b)]++
@@ -470,6 +508,12 @@ func run(c Case) error {
 			if inWindow {
 				continue // the work connection is being re-established: this datagram or its reply may be lost
 			}
+			if c.CutAt >= 0 && c.Kind == "sudp" && !sentAt[i].Before(cutTime) {
+				continue // the sudp visitor reconnects on demand: after the cut only "nothing twice, nothing foreign" is asserted
+			}
+			if c.DownAt >= 0 && sd.Proxy == 0 && sentAt[i].After(downFrom.Add(-300*time.Millisecond)) && sentAt[i].Before(downTo.Add(300*time.Millisecond)) {
+				continue // sent while backend 0 was away
+			}
 			mustProxy[sd.Proxy][string(p)]++
 			if _, ok := first[string(p)]; !ok {
 				first[string(p)] = i
@@ -519,6 +563,9 @@ func classify(c Case) fx.Class {
 	labels := []string{"kind=" + c.Kind, fmt.Sprintf("enc=%v,comp=%v", c.Enc, c.Comp), fmt.Sprintf("pkt=%d", c.PacketSize)}
 	if c.CutAt >= 0 {
 		labels = append(labels, "workconn-replaced")
+	}
+	if c.DownAt >= 0 {
+		labels = append(labels, "backend-away")
 	}
 	if limitLightLoad(c) {
 		labels = append(labels, "light-load")
